@@ -641,7 +641,12 @@ var vUnknownHash = hash.SHA256Sum([]byte("verif: occurs nowhere"))
 // Probe results are de-duplicated: each distinct result gets an index in order of first appearance.
 // lite = only what can depend on the store object's in-memory state (the conflicted cache) plus the latest version:
 // used after a restart, where the database is unchanged (fact storeStructFields: db handle, provider, cache).
-func vObserve(s *store, evs []vGenEvent, times []int64, dids map[string]did.DID, probes []vProbe, lite bool) string {
+func vObserve(s *store, evs []vGenEvent, times []int64, dids map[string]did.DID, probes []vProbe, lite bool) (res string) {
+	defer func() {
+		if r := recover(); r != nil {
+			res = "observepanic: an iterator or counter of the store panicked"
+		}
+	}()
 	obs := &vObserver{s: s, names: map[hash.SHA256Hash]string{}}
 	var didKeys []string
 	for k := range dids {
@@ -818,9 +823,11 @@ func TestVerifC10(t *testing.T) {
 				code = fail[pos]
 			}
 			if code == 4 { // restart: a new store object on the same database, then a plain Add
-				s = New(&storage.StaticKVStoreProvider{Store: db}).(*store)
-				if err := s.Configure(core.ServerConfig{}); err != nil {
-					t.Fatal(err)
+				ns := New(&storage.StaticKVStoreProvider{Store: db}).(*store)
+				if err := ns.Configure(core.ServerConfig{}); err != nil {
+					addErrs += fmt.Sprintf("restarterr@%d ", pos) // a store that cannot be re-opened is an outcome
+				} else {
+					s = ns
 				}
 				code = 0
 			}
@@ -863,11 +870,12 @@ func TestVerifC10(t *testing.T) {
 		implW.WriteByte('\n')
 		// restart: a fresh store object on the same database must give the same answers (conflicted cache reload)
 		s2 := New(&storage.StaticKVStoreProvider{Store: db}).(*store)
-		if err := s2.Configure(core.ServerConfig{}); err != nil {
-			t.Fatal(err)
-		}
 		opsW.WriteString(`{"op":"again"}` + "\n")
-		implW.WriteString(vObserve(s2, evs, times, dids, probes, true))
+		if err := s2.Configure(core.ServerConfig{}); err != nil {
+			implW.WriteString("restarterr: the store cannot be re-opened")
+		} else {
+			implW.WriteString(vObserve(s2, evs, times, dids, probes, true))
+		}
 		implW.WriteByte('\n')
 		db.Close(context.Background())
 		os.Remove(path)
